@@ -828,12 +828,43 @@ def f_copy(a, *args, **kw):
     return f_array(a)
 
 
+def f_einsum(subscripts, *operands, **kw):
+    """np.einsum on proxy data: real numpy does the contraction on object arrays; the result is re-wrapped so that
+    .real / .imag / in-place arithmetic behave as on a numeric array"""
+    ops = [o.view(_np.ndarray) if isinstance(o, SArr) else o for o in operands]
+    if not builtins.any(isinstance(o, _np.ndarray) and _rdt(o) == object for o in ops):
+        return _np.einsum(subscripts, *operands, **kw)
+    kw.pop("optimize", None)
+    res = _np.einsum(subscripts, *[(_np.asarray(o, dtype=object) if isinstance(o, _np.ndarray) else o) for o in ops])
+    if isinstance(res, _np.ndarray):
+        r = res.view(SArr)
+        r._dt = _np.dtype(complex) if builtins.any(isinstance(v, SC) for v in res.ravel()) else _np.dtype(float)
+        return r
+    return res
+
+
 def f_trace(a, *args, **kw):
     return _np.trace(a, *args, **kw)
 
 
 def f_isclose(a, b, rtol=1e-05, atol=1e-08, **kw):
-    raise S.SymbolicLeak("isclose on symbolic data")
+    """documented semantics: |a - b| <= atol + rtol * |b| (element-wise, symbolic comparisons stay symbolic)"""
+    if not (_has_symbolic(a) or _has_symbolic(b)):
+        return _np.isclose(a, b, rtol=rtol, atol=atol, **kw)
+    aa = a if isinstance(a, _np.ndarray) else sarr(a) if isinstance(a, (list, tuple)) else a
+    bb = b if isinstance(b, _np.ndarray) else sarr(b) if isinstance(b, (list, tuple)) else b
+    diff = _np.abs(aa - bb) if isinstance(aa - bb, _np.ndarray) else abs(aa - bb)
+    bound = S.snap_float(atol) + S.snap_float(rtol) * (_np.abs(bb) if isinstance(bb, _np.ndarray) else abs(lift_strict(bb)))
+    if isinstance(diff, _np.ndarray):
+        return _np.less_equal(diff.view(SArr) if _rdt(diff) == object else diff, bound)
+    return lift_strict(diff) <= bound
+
+
+def f_allclose(a, b, rtol=1e-05, atol=1e-08, **kw):
+    r = f_isclose(a, b, rtol=rtol, atol=atol)
+    if isinstance(r, _np.ndarray):
+        return builtins.bool(builtins.all(builtins.bool(x) for x in r.ravel()))
+    return builtins.bool(r)
 
 
 # --------------------------------------------------------------------------- linalg
@@ -1054,6 +1085,9 @@ class _Facade:
     round = staticmethod(f_round)
     around = staticmethod(f_round)
     copy = staticmethod(f_copy)
+    einsum = staticmethod(f_einsum)
+    isclose = staticmethod(f_isclose)
+    allclose = staticmethod(f_allclose)
     save = staticmethod(f_save)
     savetxt = staticmethod(f_savetxt)
     sqrt = staticmethod(_elementwise("sqrt"))
